@@ -63,6 +63,215 @@ Ltac bprune :=
           | |- context [?a =? ?b] => destruct (Nat.eqb_spec a b)
           end; try (exfalso; lia); simpl).
 
+(* ------------------------------------------------------------ pools of objects (generic) *)
+Section PoolProofs.
+Variables X O F : Type.
+Variable def : O -> X -> bool.
+Variable app : O -> X -> X.
+Variable copy : X -> X.
+Variable fresh : F -> X.
+Variable bin_def : X -> X -> bool.
+Variable bin : X -> X -> X.
+Local Notation eval := (eval def app copy fresh bin_def bin).
+Local Notation kstep := (kstep def app copy fresh bin_def bin).
+Local Notation krun := (krun def app copy fresh bin_def bin).
+Local Notation pool := (pool X).
+
+Lemma slot_put_length (p : pool) i v : length (slot_put p i v) = length p.
+Proof. revert i. induction p as [|h r IH]; intros [|i]; simpl; auto. Qed.
+
+Lemma nth_error_slot_put_same (p : pool) i v : i < length p -> nth_error (slot_put p i v) i = Some v.
+Proof.
+  revert i. induction p as [|h r IH]; intros [|i]; simpl; intros H; try lia; auto. apply IH. lia.
+Qed.
+
+Lemma nth_error_slot_put_other (p : pool) i j v : j <> i -> nth_error (slot_put p i v) j = nth_error p j.
+Proof.
+  revert i j. induction p as [|h r IH]; intros [|i] [|j]; simpl; intros H; auto; try congruence.
+Qed.
+
+Lemma slot_kill_length (p : pool) i : length (slot_kill p i) = length p.
+Proof. unfold slot_kill. destruct (nth_error p i) as [[x b]|]; auto. apply slot_put_length. Qed.
+
+Lemma nth_error_slot_kill_other (p : pool) i j : j <> i -> nth_error (slot_kill p i) j = nth_error p j.
+Proof.
+  intros H. unfold slot_kill. destruct (nth_error p i) as [[x b]|]; auto. apply nth_error_slot_put_other; auto.
+Qed.
+
+(* a moved-from object is not available any more; the model keeps its (unspecified) value *)
+Lemma slot_get_kill_same (p : pool) i : slot_get (slot_kill p i) i = None.
+Proof.
+  unfold slot_get, slot_kill. destruct (nth_error p i) as [[x b]|] eqn:E.
+  - rewrite nth_error_slot_put_same; auto. apply nth_error_Some. congruence.
+  - rewrite E. reflexivity.
+Qed.
+
+Lemma nth_error_slot_kill_fst (p : pool) i j x b : nth_error (slot_kill p i) j = Some (x, b) ->
+  exists b', nth_error p j = Some (x, b').
+Proof.
+  destruct (Nat.eq_dec j i) as [->|NE].
+  - unfold slot_kill. destruct (nth_error p i) as [[y c]|] eqn:E.
+    + rewrite nth_error_slot_put_same by (apply nth_error_Some; congruence). intros H. injection H as <- <-. eauto.
+    + rewrite E. discriminate.
+  - rewrite nth_error_slot_kill_other by exact NE. eauto.
+Qed.
+
+Lemma slot_get_put_same (p : pool) i x : i < length p -> slot_get (slot_put p i (x, true)) i = Some x.
+Proof. intros H. unfold slot_get. rewrite nth_error_slot_put_same by exact H. reflexivity. Qed.
+
+Lemma slot_get_some (p : pool) i x : slot_get p i = Some x -> nth_error p i = Some (x, true) /\ i < length p.
+Proof.
+  unfold slot_get. destruct (nth_error p i) as [[y [|]]|] eqn:E; try discriminate.
+  intros H. injection H as ->. split; auto. apply nth_error_Some. congruence.
+Qed.
+
+(* --- an invariant of the objects holds for every slot along every defined sequence *)
+Definition pool_all (P : X -> Prop) (p : pool) : Prop := forall i x b, nth_error p i = Some (x, b) -> P x.
+
+Section Inv.
+Variable P : X -> Prop.
+Variable ok : O -> bool.
+Hypothesis Happ : forall o x, P x -> ok o = true -> def o x = true -> P (app o x).
+Hypothesis Hcopy : forall x, P x -> P (copy x).
+Hypothesis Hfresh : forall f, P (fresh f).
+Hypothesis Hbin : forall a b, P a -> P b -> bin_def a b = true -> P (bin a b).
+
+Lemma pool_all_put (p : pool) i x b : pool_all P p -> P x -> pool_all P (slot_put p i (x, b)).
+Proof.
+  intros Hp Hx j y c Hj. destruct (Nat.eq_dec j i) as [->|NE].
+  - destruct (Nat.lt_ge_cases i (length p)) as [L|L].
+    + rewrite nth_error_slot_put_same in Hj by exact L. injection Hj as <- <-. exact Hx.
+    + assert (nth_error (slot_put p i (x, b)) i = None) by (apply nth_error_None; rewrite slot_put_length; exact L).
+      congruence.
+  - rewrite nth_error_slot_put_other in Hj by exact NE. eapply Hp; eauto.
+Qed.
+
+Lemma pool_all_kill (p : pool) i : pool_all P p -> pool_all P (slot_kill p i).
+Proof. intros Hp j y c Hj. apply nth_error_slot_kill_fst in Hj. destruct Hj as [b' Hj]. eapply Hp; eauto. Qed.
+
+Lemma pool_all_get (p : pool) i x : pool_all P p -> slot_get p i = Some x -> P x.
+Proof. intros Hp H. apply slot_get_some in H. destruct H as [H _]. eapply Hp; eauto. Qed.
+
+Lemma eval_inv (p : pool) e x : pool_all P p -> exp_all ok e = true -> eval p e = Some x -> P x.
+Proof.
+  intros Hp. revert x. induction e as [s|f|o e IH|a IHa b IHb]; simpl; intros x Hok He.
+  - destruct (slot_get p s) as [y|] eqn:E; [|discriminate]. injection He as <-. apply Hcopy. eapply pool_all_get; eauto.
+  - injection He as <-. apply Hfresh.
+  - apply andb_true_iff in Hok. destruct Hok as [Ho Hok].
+    destruct (eval p e) as [y|]; [|discriminate]. destruct (def o y) eqn:D; [|discriminate].
+    injection He as <-. apply Happ; auto.
+  - apply andb_true_iff in Hok. destruct Hok as [Ha Hb].
+    destruct (eval p a) as [y|]; [|discriminate]. destruct (eval p b) as [z|]; [|discriminate].
+    destruct (bin_def y z) eqn:D; [|discriminate]. injection He as <-. apply Hbin; auto.
+Qed.
+
+Lemma kstep_inv k (p p' : pool) : pool_all P p -> kop_all ok k = true -> kstep k p = Some p' ->
+  pool_all P p' /\ length p' = length p.
+Proof.
+  intros Hp Hok Hk. destruct k as [i o|i|t s|t s|t e]; simpl in *.
+  - destruct (slot_get p i) as [x|] eqn:E; [|discriminate]. destruct (def o x) eqn:D; [|discriminate].
+    injection Hk as <-. split; [|apply slot_put_length]. apply pool_all_put; auto. apply Happ; auto.
+    eapply pool_all_get; eauto.
+  - destruct (slot_get p i); [|discriminate]. injection Hk as <-. auto.
+  - destruct (slot_get p s) as [x|] eqn:E; [|discriminate]. destruct (t <? length p); [|discriminate].
+    injection Hk as <-. split; [|apply slot_put_length]. apply pool_all_put; auto. apply Hcopy. eapply pool_all_get; eauto.
+  - destruct (slot_get p s) as [x|] eqn:E; [|discriminate]. destruct (t <? length p); [|discriminate].
+    injection Hk as <-. split.
+    + apply pool_all_put; [destruct (t =? s); auto; apply pool_all_kill; auto|]. apply Hcopy. eapply pool_all_get; eauto.
+    + rewrite slot_put_length. destruct (t =? s); auto. apply slot_kill_length.
+  - destruct (eval p e) as [x|] eqn:E; [|discriminate]. destruct (t <? length p); [|discriminate].
+    injection Hk as <-. split; [|apply slot_put_length]. apply pool_all_put; auto. eapply eval_inv; eauto.
+Qed.
+
+Lemma krun_inv ks (p p' : pool) : pool_all P p -> forallb (kop_all ok) ks = true -> krun ks p = Some p' ->
+  pool_all P p' /\ length p' = length p.
+Proof.
+  revert p. induction ks as [|k r IH]; simpl; intros p Hp Hok Hr.
+  - injection Hr as <-. auto.
+  - apply andb_true_iff in Hok. destruct Hok as [Hk Hr'].
+    destruct (kstep k p) as [q|] eqn:E; [|discriminate].
+    destruct (kstep_inv k p q Hp Hk E) as [Hq Lq]. destruct (IH q Hq Hr' Hr) as [H1 H2]. split; auto. congruence.
+Qed.
+End Inv.
+
+(* --- what the special member functions do: the target IS the source, nothing else changes *)
+Hypothesis copy_id : forall x, copy x = x.
+
+Lemma kstep_copy_exact t s (p p' : pool) x : slot_get p s = Some x -> kstep (KCopy t s) p = Some p' ->
+  slot_get p' t = Some x /\ (forall i, i <> t -> nth_error p' i = nth_error p i).
+Proof.
+  intros Hs Hk. simpl in Hk. rewrite Hs in Hk. destruct (Nat.ltb_spec t (length p)); [|discriminate].
+  injection Hk as <-. rewrite copy_id. split; [apply slot_get_put_same; auto|].
+  intros i Hi. apply nth_error_slot_put_other; auto.
+Qed.
+
+Lemma kstep_move_exact t s (p p' : pool) x : slot_get p s = Some x -> kstep (KMove t s) p = Some p' ->
+  slot_get p' t = Some x /\ (t <> s -> slot_get p' s = None)
+  /\ (forall i, i <> t -> i <> s -> nth_error p' i = nth_error p i).
+Proof.
+  intros Hs Hk. simpl in Hk. rewrite Hs in Hk. destruct (Nat.ltb_spec t (length p)) as [L|L]; [|discriminate].
+  injection Hk as <-. rewrite copy_id. destruct (Nat.eqb_spec t s) as [->|NE].
+  - split; [apply slot_get_put_same; auto|]. split; [congruence|]. intros i Hi _. apply nth_error_slot_put_other; auto.
+  - split; [apply slot_get_put_same; rewrite slot_kill_length; auto|]. split.
+    + intros _. unfold slot_get. rewrite nth_error_slot_put_other by auto. apply slot_get_kill_same.
+    + intros i Hi Hi'. rewrite nth_error_slot_put_other by auto. apply nth_error_slot_kill_other; auto.
+Qed.
+
+Lemma kstep_temp_exact t e (p p' : pool) : kstep (KTemp t e) p = Some p' ->
+  (exists x, eval p e = Some x /\ slot_get p' t = Some x) /\ (forall i, i <> t -> nth_error p' i = nth_error p i).
+Proof.
+  intros Hk. simpl in Hk. destruct (eval p e) as [x|]; [|discriminate].
+  destruct (Nat.ltb_spec t (length p)); [|discriminate]. injection Hk as <-.
+  split; [exists x; split; auto; apply slot_get_put_same; auto|]. intros i Hi. apply nth_error_slot_put_other; auto.
+Qed.
+
+Lemma kstep_on_exact i o (p p' : pool) : kstep (KOn i o) p = Some p' ->
+  (exists x, slot_get p i = Some x /\ def o x = true /\ slot_get p' i = Some (app o x))
+  /\ (forall j, j <> i -> nth_error p' j = nth_error p j).
+Proof.
+  intros Hk. simpl in Hk. destruct (slot_get p i) as [x|] eqn:E; [|discriminate]. destruct (def o x) eqn:D; [|discriminate].
+  injection Hk as <-. apply slot_get_some in E. destruct E as [_ L].
+  split; [exists x; repeat split; auto; apply slot_get_put_same; auto|]. intros j Hj. apply nth_error_slot_put_other; auto.
+Qed.
+
+(* the value of an rvalue expression: a named object is its value; f(e) applies the operation *)
+Lemma eval_slot (p : pool) s : eval p (ESlot s) = slot_get p s.
+Proof. simpl. destruct (slot_get p s); auto. rewrite copy_id. reflexivity. Qed.
+
+Lemma eval_op (p : pool) o e x : eval p e = Some x -> def o x = true -> eval p (EOp o e) = Some (app o x).
+Proof. intros H D. simpl. rewrite H, D. reflexivity. Qed.
+
+Lemma eval_bin (p : pool) a b x y : eval p a = Some x -> eval p b = Some y -> bin_def x y = true ->
+  eval p (EBin a b) = Some (bin x y).
+Proof. intros Ha Hb D. simpl. rewrite Ha, Hb, D. reflexivity. Qed.
+
+(* r = f(s) and r = a + b for named objects s, a, b (which may be r itself) *)
+Lemma kstep_temp_op_slot t s o (p p' : pool) x : slot_get p s = Some x ->
+  kstep (KTemp t (EOp o (ESlot s))) p = Some p' ->
+  def o x = true /\ slot_get p' t = Some (app o x) /\ (forall i, i <> t -> nth_error p' i = nth_error p i).
+Proof.
+  intros Hs Hk. destruct (kstep_temp_exact _ _ _ _ Hk) as [[y [E G]] H]. simpl in E. rewrite Hs, copy_id in E.
+  destruct (def o x); [|discriminate]. injection E as <-. auto.
+Qed.
+
+Lemma kstep_temp_bin_slots t a b (p p' : pool) x y : slot_get p a = Some x -> slot_get p b = Some y ->
+  kstep (KTemp t (EBin (ESlot a) (ESlot b))) p = Some p' ->
+  bin_def x y = true /\ slot_get p' t = Some (bin x y) /\ (forall i, i <> t -> nth_error p' i = nth_error p i).
+Proof.
+  intros Ha Hb Hk. destruct (kstep_temp_exact _ _ _ _ Hk) as [[z [E G]] H]. simpl in E. rewrite Ha, Hb, !copy_id in E.
+  destruct (bin_def x y); [|discriminate]. injection E as <-. auto.
+Qed.
+
+(* a one-slot pool on which only single-object operations run is the single-object history *)
+Lemma krun_single ops x :
+  krun (map (KOn 0) ops) [(x, true)] =
+  match run_ops def app ops x with Some y => Some [(y, true)] | None => None end.
+Proof.
+  revert x. induction ops as [|o r IH]; intros x; simpl; auto.
+  destruct (def o x); [apply IH|reflexivity].
+Qed.
+End PoolProofs.
+
 Section C11.
 Variable S : SOps.
 Variable junk : T S.
@@ -309,6 +518,48 @@ Proof.
   try (apply (shape_e_fill _ _ _ _ H4)); try (apply (shape_e_fill _ _ _ _ H5)); try (apply (shape_e_fill _ _ _ _ H6)).
 Qed.
 
+(* --- writes through the non-const accessors *)
+Lemma gm_with_consistent g m c w : Consistent g ->
+  shape m (dim S g) (components S g) -> shape c (dcov S g) (dcov S g * components S g) -> shape w (components S g) 1 ->
+  Consistent (gm_with S g m c w).
+Proof. intros (H1 & H2 & H3 & _) Hm Hc Hw. unfold Consistent, gm_with; simpl. auto 10. Qed.
+
+Lemma gm_set_mean_el_consistent g i j x : Consistent g -> Consistent (gm_set_mean_el S g i j x).
+Proof.
+  intros H. pose proof H as (_ & _ & _ & H4 & H5 & H6). apply gm_with_consistent; auto. apply shape_e_set; auto.
+Qed.
+Lemma gm_set_cov_el_consistent g i j k x : Consistent g -> Consistent (gm_set_cov_el S g i j k x).
+Proof.
+  intros H. pose proof H as (_ & _ & _ & H4 & H5 & H6). apply gm_with_consistent; auto. apply shape_e_set; auto.
+Qed.
+Lemma gm_set_weight_consistent g i x : Consistent g -> Consistent (gm_set_weight S g i x).
+Proof.
+  intros H. pose proof H as (_ & _ & _ & H4 & H5 & H6). apply gm_with_consistent; auto. apply shape_e_set; auto.
+Qed.
+Lemma gm_set_mean_consistent g i v : Consistent g -> Consistent (gm_set_mean S g i v).
+Proof.
+  intros H. pose proof H as (_ & _ & _ & H4 & H5 & H6). apply gm_with_consistent; auto. apply shape_e_set_block; auto.
+Qed.
+Lemma gm_set_cov_consistent g i m : Consistent g -> Consistent (gm_set_cov S g i m).
+Proof.
+  intros H. pose proof H as (_ & _ & _ & H4 & H5 & H6). apply gm_with_consistent; auto. apply shape_e_set_block; auto.
+Qed.
+
+Lemma gm_fill_el_consistent b g : Consistent g -> Consistent (gm_fill_el S b g).
+Proof.
+  intros H. unfold gm_fill_el.
+  apply fold_left_inv; [apply fold_left_inv; [apply fold_left_inv; [exact H|]|]|]; intros.
+  - apply gm_set_mean_el_consistent; auto.
+  - apply gm_set_cov_el_consistent; auto.
+  - apply gm_set_weight_consistent; auto.
+Qed.
+
+Lemma gm_fill_blk_consistent b g : Consistent g -> Consistent (gm_fill_blk S b g).
+Proof.
+  intros H. unfold gm_fill_blk. apply fold_left_inv; [exact H|]. intros.
+  apply gm_set_weight_consistent, gm_set_cov_consistent, gm_set_mean_consistent; auto.
+Qed.
+
 (* --- resize *)
 Lemma gm_resize_consistent c l ci g : Consistent g -> Consistent (gm_resize S junk c l ci g).
 Proof.
@@ -364,6 +615,8 @@ Proof.
   - apply gm_resize_consistent; auto.
   - apply gm_augment_consistent; auto.
   - apply gm_augment_consistent; auto.
+  - apply gm_fill_el_consistent; auto.
+  - apply gm_fill_blk_consistent; auto.
 Qed.
 
 (* every history along which the C++ is defined *)
@@ -395,6 +648,22 @@ Proof.
   - apply gm_augment_consistent; auto.
   - apply gm_augment_consistent; auto.
   - apply gm_resize_consistent; auto.
+  - apply gm_fill_el_consistent; auto.
+  - apply gm_fill_blk_consistent; auto.
+Qed.
+
+Lemma gm_fill_el_components b g : components S (gm_fill_el S b g) = components S g.
+Proof.
+  unfold gm_fill_el.
+  apply (fold_left_inv (fun y => components S y = components S g)); [|intros y a E; exact E].
+  apply (fold_left_inv (fun y => components S y = components S g)); [|intros y a E; exact E].
+  apply (fold_left_inv (fun y => components S y = components S g)); [reflexivity|intros y a E; exact E].
+Qed.
+
+Lemma gm_fill_blk_components b g : components S (gm_fill_blk S b g) = components S g.
+Proof.
+  unfold gm_fill_blk.
+  apply (fold_left_inv (fun y => components S y = components S g)); [reflexivity|intros y a E; exact E].
 Qed.
 
 Lemma gauss_apply_ok o g : Gaussian_ok g -> gaussop_single S o = true -> Gaussian_ok (gauss_apply S junk o g).
@@ -407,6 +676,8 @@ Proof.
   - rewrite gm_augment_components. exact H1.
   - apply Nat.eqb_eq in Hs. subst c.
     destruct (gm_resize_components 1 l ci g) as [E|[E E']]; [exact E|rewrite E; exact H1].
+  - rewrite gm_fill_el_components. exact H1.
+  - rewrite gm_fill_blk_components. exact H1.
 Qed.
 
 Lemma gauss_run_consistent ops g g' : Consistent g -> gauss_run S junk ops g = Some g' -> Consistent g'.
@@ -432,6 +703,35 @@ Proof. destruct p. unfold ps_copy; simpl. rewrite gm_copy_id. reflexivity. Qed.
 Lemma ps_fill_consistent b p : Consistent_ps p -> Consistent_ps (ps_fill S b p).
 Proof.
   intros [H Hs]. split; simpl; [apply gm_fill_consistent; auto|]. apply shape_e_fill. exact Hs.
+Qed.
+
+Lemma gm_fill_el_dim b g : dim S (gm_fill_el S b g) = dim S g.
+Proof.
+  unfold gm_fill_el.
+  apply (fold_left_inv (fun y => dim S y = dim S g)); [|intros y a E; exact E].
+  apply (fold_left_inv (fun y => dim S y = dim S g)); [|intros y a E; exact E].
+  apply (fold_left_inv (fun y => dim S y = dim S g)); [reflexivity|intros y a E; exact E].
+Qed.
+
+Lemma gm_fill_blk_dim b g : dim S (gm_fill_blk S b g) = dim S g.
+Proof.
+  unfold gm_fill_blk. apply (fold_left_inv (fun y => dim S y = dim S g)); [reflexivity|intros y a E; exact E].
+Qed.
+
+Lemma ps_fill_el_consistent b p : Consistent_ps p -> Consistent_ps (ps_fill_el S b p).
+Proof.
+  intros [H Hs]. unfold ps_fill_el.
+  apply (fold_left_inv (fun y => Consistent_ps y)).
+  - split; simpl; [apply gm_fill_el_consistent; auto|]. rewrite gm_fill_el_dim, gm_fill_el_components. exact Hs.
+  - intros y a [Hy Hys]. split; simpl; auto. apply shape_e_set. exact Hys.
+Qed.
+
+Lemma ps_fill_blk_consistent b p : Consistent_ps p -> Consistent_ps (ps_fill_blk S b p).
+Proof.
+  intros [H Hs]. unfold ps_fill_blk.
+  apply (fold_left_inv (fun y => Consistent_ps y)).
+  - split; simpl; [apply gm_fill_blk_consistent; auto|]. rewrite gm_fill_blk_dim, gm_fill_blk_components. exact Hs.
+  - intros y a [Hy Hys]. split; simpl; auto. apply shape_e_set_block. exact Hys.
 Qed.
 
 Lemma gm_resize_dim c l ci g :
@@ -491,6 +791,8 @@ Proof.
   - unfold ps_plus. rewrite ps_copy_id. apply ps_concat_consistent; auto.
   - apply ps_augment_consistent; auto.
   - apply ps_concat_consistent; auto.
+  - apply ps_fill_el_consistent; auto.
+  - apply ps_fill_blk_consistent; auto.
 Qed.
 
 Lemma ps_run_consistent ops p p' : Consistent_ps p -> ps_run S junk ops p = Some p' -> Consistent_ps p'.
@@ -499,6 +801,68 @@ Proof.
   intros. apply ps_apply_consistent. auto.
 Qed.
 
+
+(* --- pools of objects: construction / assignment from other objects and from temporaries *)
+Lemma pool0_all {Y} (P : Y -> Prop) (f : layout -> Y) ls : (forall l, P (f l)) ->
+  pool_all Y P (map (fun l => (f l, true)) ls).
+Proof.
+  intros H i x b Hi. apply nth_error_In in Hi. apply in_map_iff in Hi. destruct Hi as [l [E _]].
+  injection E as <- _. apply H.
+Qed.
+
+Lemma gm_fresh_consistent f : Consistent (gm_fresh S f).
+Proof. destruct f as [[[c l] ci] q]. apply gm_ctor_consistent. Qed.
+Lemma gauss_fresh_ok f : Gaussian_ok (gauss_fresh S f).
+Proof. destruct f as [[[c l] ci] q]. split; [apply gm_ctor_consistent|reflexivity]. Qed.
+Lemma ps_fresh_consistent f : Consistent_ps (ps_fresh S f).
+Proof. destruct f as [[[c l] ci] q]. apply ps_ctor_consistent. Qed.
+
+Lemma gm_krun_consistent ks p p' : pool_all gm Consistent p -> gm_krun S junk ks p = Some p' ->
+  pool_all gm Consistent p' /\ length p' = length p.
+Proof.
+  intros H R. eapply (krun_inv _ _ _ _ _ _ _ _ _ Consistent (fun _ => true)); [| | | |exact H| |exact R].
+  - intros. apply gm_apply_consistent; auto.
+  - intros. rewrite gm_copy_id; auto.
+  - apply gm_fresh_consistent.
+  - intros a b _ _ D. discriminate D.
+  - clear. induction ks as [|k r IH]; simpl; auto. rewrite IH, andb_true_r.
+    destruct k as [| | | |t e]; simpl; auto. induction e; simpl; auto. rewrite IHe1, IHe2. reflexivity.
+Qed.
+
+Lemma gauss_krun_consistent ks p p' : pool_all gm Consistent p -> gauss_krun S junk ks p = Some p' ->
+  pool_all gm Consistent p' /\ length p' = length p.
+Proof.
+  intros H R. eapply (krun_inv _ _ _ _ _ _ _ _ _ Consistent (fun _ => true)); [| | | |exact H| |exact R].
+  - intros. apply gauss_apply_consistent; auto.
+  - intros. rewrite gm_copy_id; auto.
+  - intros f. apply gauss_fresh_ok.
+  - intros a b _ _ D. discriminate D.
+  - clear. induction ks as [|k r IH]; simpl; auto. rewrite IH, andb_true_r.
+    destruct k as [| | | |t e]; simpl; auto. induction e; simpl; auto. rewrite IHe1, IHe2. reflexivity.
+Qed.
+
+Lemma gauss_krun_ok ks p p' : pool_all gm Gaussian_ok p ->
+  forallb (kop_all (gaussop_single S)) ks = true -> gauss_krun S junk ks p = Some p' ->
+  pool_all gm Gaussian_ok p' /\ length p' = length p.
+Proof.
+  intros H Hs R. eapply (krun_inv _ _ _ _ _ _ _ _ _ Gaussian_ok (gaussop_single S)); [| | | |exact H|exact Hs|exact R].
+  - intros. apply gauss_apply_ok; auto.
+  - intros. rewrite gm_copy_id; auto.
+  - apply gauss_fresh_ok.
+  - intros a b _ _ D. discriminate D.
+Qed.
+
+Lemma ps_krun_consistent ks p p' : pool_all pset Consistent_ps p -> ps_krun S junk ks p = Some p' ->
+  pool_all pset Consistent_ps p' /\ length p' = length p.
+Proof.
+  intros H R. eapply (krun_inv _ _ _ _ _ _ _ _ _ Consistent_ps (fun _ => true)); [| | | |exact H| |exact R].
+  - intros. apply ps_apply_consistent; auto.
+  - intros. rewrite ps_copy_id; auto.
+  - apply ps_fresh_consistent.
+  - intros a b Ha _ _. unfold ps_plus. rewrite ps_copy_id. apply ps_concat_consistent; auto.
+  - clear. induction ks as [|k r IH]; simpl; auto. rewrite IH, andb_true_r.
+    destruct k as [| | | |t e]; simpl; auto. induction e; simpl; auto. rewrite IHe1, IHe2. reflexivity.
+Qed.
 
 (* ------------------------------------------------------------ accessors *)
 (* the list-of-components view used by the algorithm-level models (C01-C08) *)
